@@ -270,7 +270,7 @@ class DictStateType(StateType):
             for key, value in data.items():
                 assert isinstance(key, str)
                 d += sep
-                d += "%-20s%s" % (f'"{key}":', self.encode_element(value))
+                d += "%-20s%s" % (json.dumps(key) + ":", self.encode_element(value))
                 sep = ",\n"
             d += "\n}"
             return d.encode("utf-8"), mimetype_from_extension("djson")
